@@ -213,11 +213,9 @@ def ieval (root : Val) : INode → Val → Env → Res Val
     else do
       let v ← ieval root f a env
       pure (.arr .plain [v])
-  | .selectArraySingleCurrent f, cur, env =>
-    if cur.isNull then .ok .null
-    else do
-      let v ← ieval root f cur env
-      pure (.arr .plain [v])
+  | .selectArraySingleCurrent f, cur, env => do
+    let v ← ieval root f cur env
+    pure (.arr .plain [v])
   | .selectObject c fs, cur, env => do
     let a ← ieval root c cur env
     if a.isNull then pure .null
@@ -235,11 +233,9 @@ def ieval (root : Val) : INode → Val → Env → Res Val
     else do
       let v ← ieval root f a env
       pure (.obj [(k, v)])
-  | .selectObjectSingleCurrent k f, cur, env =>
-    if cur.isNull then .ok .null
-    else do
-      let v ← ieval root f cur env
-      pure (.obj [(k, v)])
+  | .selectObjectSingleCurrent k f, cur, env => do
+    let v ← ieval root f cur env
+    pure (.obj [(k, v)])
   | .slice c a b, cur, env => do
     let v ← ieval root c cur env
     slice v a b
